@@ -13,6 +13,10 @@
 // (id||c, rest-of-secret) and (id minus last char, last char||secret), (id, empty password)}.
 // Every sequence of <= 6 (quick) / <= 8 (thorough) events is covered, de-duplicated on the
 // private state of store + cache + clock together with the state of the reference.
+// A second, narrow search covers every sequence of <= 10 (quick) / <= 12 (thorough) events over
+// Create(a), Delete(a), the three clock advances and requests from 10.0.0.5 for /list-transactions
+// with {latest pair, first pair, wrong secret} of a: it reaches the long histories in which a
+// deleted token keeps being presented inside the window.
 //
 // Reference (independent, keyed by the PAIR, never by a concatenation):
 //   a non-loopback request must be refused if the path is restricted, or the credentials are
@@ -484,61 +488,102 @@ func main() {
 		}
 	}
 
-	seen := map[string]bool{}
-	root := newSUT()
-	seen[root.digest()] = true
-	states = append(states, state{parent: -1})
-	frontier := []int{0}
-	transitions, compared, mayDiff, reached := 0, 0, 0, 0
-	for depth := 1; depth <= maxDepth && len(frontier) > 0; depth++ {
-		var next []int
-		for fi, si := range frontier {
-			if fi%64 == 0 && run.OutOfTime() {
-				run.Capped(fmt.Sprintf("time budget reached at depth %d", depth))
-				frontier = nil
+	totalStates, transitions, compared, mayDiff, reached := 0, 0, 0, 0, 0
+	// search: breadth-first over every sequence of <= maxDepth events taken from alphabet (indices into events)
+	search := func(label string, alphabet []int, maxDepth int) {
+		states = states[:0]
+		seen := map[string]bool{}
+		root := newSUT()
+		seen[root.digest()] = true
+		states = append(states, state{parent: -1})
+		frontier := []int{0}
+		for depth := 1; depth <= maxDepth && len(frontier) > 0; depth++ {
+			var next []int
+			for fi, si := range frontier {
+				if fi%64 == 0 && run.OutOfTime() {
+					run.Capped(fmt.Sprintf("%s: time budget reached at depth %d", label, depth))
+					frontier = nil
+					break
+				}
+				evs := history(si)
+				var s *sut
+				var pre string
+				for _, ei := range alphabet {
+					e := events[ei]
+					if s == nil {
+						s = replay(evs)
+						pre = s.digest()
+					}
+					info := s.apply(e)
+					transitions++
+					compared += info.compared
+					mayDiff += info.mayDiff
+					run.Outcome(info.outcome)
+					full := append(append([]int{}, evs...), ei)
+					for _, f := range info.findings {
+						run.Violation(f.key, fmt.Sprintf("%s search %v: %s", label, describe(full), f.what), describe(full))
+					}
+					d := s.digest()
+					if d == pre {
+						continue // nothing changed (store, cache, clock, reference): the instance serves the next event
+					}
+					s = nil
+					if seen[d] {
+						continue
+					}
+					seen[d] = true
+					states = append(states, state{parent: int32(si), ev: int16(ei), depth: int8(depth)})
+					next = append(next, len(states)-1)
+					if len(states)%997 == 3 {
+						run.Sample(map[string]interface{}{"search": label, "history": describe(full), "state": d})
+					}
+				}
+			}
+			if frontier == nil {
 				break
 			}
-			evs := history(si)
-			var s *sut
-			var pre string
-			for ei, e := range events {
-				if s == nil {
-					s = replay(evs)
-					pre = s.digest()
-				}
-				info := s.apply(e)
-				transitions++
-				compared += info.compared
-				mayDiff += info.mayDiff
-				run.Outcome(info.outcome)
-				full := append(append([]int{}, evs...), ei)
-				for _, f := range info.findings {
-					run.Violation(f.key, fmt.Sprintf("%v: %s", describe(full), f.what), describe(full))
-				}
-				d := s.digest()
-				if d == pre {
-					continue // nothing changed (store, cache, clock, reference): the instance serves the next event
-				}
-				s = nil
-				if seen[d] {
-					continue
-				}
-				seen[d] = true
-				states = append(states, state{parent: int32(si), ev: int16(ei), depth: int8(depth)})
-				next = append(next, len(states)-1)
-				if len(states)%997 == 3 {
-					run.Sample(map[string]interface{}{"history": describe(full), "state": d})
-				}
+			if depth > reached {
+				reached = depth
+			}
+			run.Set(fmt.Sprintf("%s_new_states_at_depth_%d", label, depth), len(next))
+			frontier = next
+		}
+		run.Set(label+"_states", len(states))
+		totalStates += len(states)
+	}
+
+	var all []int
+	for i := range events {
+		all = append(all, i)
+	}
+	search("main", all, maxDepth)
+
+	// narrow, deep search: one token id, one non-loopback origin, one unrestricted path; it reaches the
+	// histories in which a deleted token is presented again and again inside the window (7+ events)
+	var narrow []int
+	for i, e := range events {
+		switch e.kind {
+		case 0, 1:
+			if e.id == 0 {
+				narrow = append(narrow, i)
+			}
+		case 2:
+			narrow = append(narrow, i)
+		case 3:
+			if e.origin == 2 && e.path == 0 && e.id == 0 && (e.cred == credLatest || e.cred == credFirst || e.cred == credWrong) {
+				narrow = append(narrow, i)
 			}
 		}
-		if frontier == nil {
-			break
-		}
-		reached = depth
-		run.Set(fmt.Sprintf("new_states_at_depth_%d", depth), len(next))
-		frontier = next
 	}
-	run.Set("states", len(states))
+	narrowDepth := run.Pick(10, 12)
+	if v := os.Getenv("VERIF_C36_NARROW_DEPTH"); v != "" {
+		fmt.Sscan(v, &narrowDepth)
+	}
+	run.Set("narrow_events", len(narrow))
+	run.Set("narrow_max_depth_bound", narrowDepth)
+	search("narrow", narrow, narrowDepth)
+
+	run.Set("states", totalStates)
 	run.Set("transitions", transitions)
 	run.Set("traces_validated_against_impl", compared)
 	run.Set("max_depth", reached)
